@@ -5,14 +5,15 @@ Helper lemmas for property C17, part 6: the excerpt `Traceback._render_stack` as
 namespace RichModel.Syntax
 
 /-- switching indent guides off and applying them afterwards is what `selectedLines` does -/
-theorem selectedLines_guides (sr : Bool) (o : Opts) (found : Bool) (lex : List Char → List Line) (code : List Char) :
-    selectedLines sr o found lex code =
-      match selectedLines sr { o with indentGuides := false } found lex code with
+theorem selectedLines_guides (sr rp : Bool) (o : Opts) (found : Bool) (lex : List Char → List Line) (code : List Char) :
+    selectedLines sr rp o found lex code =
+      match selectedLines sr rp { o with indentGuides := false } found lex code with
       | .error e => .error e
-      | .ok ls => if o.indentGuides && !o.asciiOnly then indentGuides o.tabSize ls else .ok ls := by
+      | .ok ls => if o.indentGuides && !o.asciiOnly then indentGuides rp o.tabSize ls else .ok ls := by
   unfold selectedLines
-  simp only [lineOffset]
-  cases highlight sr found (lex (expandTabs o.tabSize code)) (expandTabs o.tabSize code) o.lineRange with
+  have hsc : shownCode { o with indentGuides := false } code = shownCode o code := rfl
+  simp only [lineOffset, hsc]
+  cases highlight sr found (lex (expandTabs o.tabSize (shownCode o code))) (expandTabs o.tabSize (shownCode o code)) o.lineRange with
   | error e => rfl
   | ok text => simp
 
@@ -36,7 +37,7 @@ theorem traceback_selected (lineno extra : Nat) (wordWrap : Bool) (maxWidth : Na
     (hclean : Clean code)
     (hlex : found = true → (lex (expandTabs 4 code)).flatten = pygPre false (expandTabs 4 code))
     (hpos : 1 ≤ lineno) (hline : (splitNL (expandTabs 4 code))[lineno - 1]? = some l) (hl : l ≠ []) :
-    ∃ sel, selectedLines false (tracebackOpts lineno extra wordWrap false maxWidth nw lw asc pad) found lex code = .ok sel ∧
+    ∃ sel, selectedLines false false (tracebackOpts lineno extra wordWrap false maxWidth nw lw asc pad) found lex code = .ok sel ∧
       (∀ x ∈ sel, '\n' ∉ x) ∧
       1 + ((lineno : Int) - extra - 1).toNat ≤ lineno ∧
       sel[lineno - (1 + ((lineno : Int) - extra - 1).toNat)]? = some l := by
@@ -55,6 +56,8 @@ theorem traceback_selected (lineno extra : Nat) (wordWrap : Bool) (maxWidth : Na
     have e : ((lineno : Int) - extra - 1).toNat + (lineno - (1 + ((lineno : Int) - extra - 1).toNat)) = lineno - 1 := by omega
     rw [e, List.getElem?_take_of_lt (by omega), hline]
   obtain ⟨k, _, ek⟩ := ht
+  have hsc : shownCode (tracebackOpts lineno extra wordWrap false maxWidth nw lw asc pad) code = code := rfl
+  rw [hsc] at ek
   rw [← ek] at hE
   rcases Nat.lt_or_ge (lineno - (1 + ((lineno : Int) - extra - 1).toNat)) sel.length with h1 | h1
   · rwa [List.getElem?_append_left h1] at hE
